@@ -37,6 +37,7 @@ type World struct {
 	Race     bool     `json:"race,omitempty"`     // run in the race-transparent world
 	Isolated bool     `json:"isolated,omitempty"` // one process for this episode
 	FileDir  string   `json:"filedir,omitempty"`  // directory for fd-backed destinations
+	RawPaths bool     `json:"rawpaths,omitempty"` // Home and Cwd are literal paths (cwd must exist), not mapped into the scratch file system
 }
 
 // Clock configures the simulated clock (the only clock logg reads).
